@@ -52,8 +52,12 @@ def plan(tier):
     pl.units = [U("S1.scan", "contracts.lexer", "h_scan", (), setup=("contracts.lexer", "setup_scan"))]
     pl.units += common.arg_layer_units("I.args", atypes=["tag", "string", "number"], adds=(True,), chks=(True,))
     pl.units.append(U("I.lookup", "contracts.gating", "h_get_command_instance", (True, True), sample_models=True, native_ok=True))
+    pl.units += common.driver_units()
 
     def lf(u, label):
+        if u.uid.startswith("PD.driver"):
+            return label in ("P8.position-is-the-lexers-at-the-failure", "P8.message-carries-the-same-line", "P8.failure-gives-a-position-triple",
+                             "P8.length-is-that-of-the-token-that-failed", "P8.tokens-reach-the-step-function-once-in-order-comments-never")
         if u.uid.startswith("S1"):
             return True
         if u.uid.startswith("I.lookup"):
